@@ -101,11 +101,78 @@ WEXPORT int64_t w_lruset_history_nodrain(const uint8_t* op, const uint8_t* which
   W_CATCH_ALL
 }
 
-enum MapOp { M_INSERT = 0, M_EMPLACE, M_ERASE, M_AT, M_ITEM_SIZE, M_CHANGE_SIZE, M_CHANGE_SIZE_NOTOUCH, M_TOUCH, M_TOUCH_SIZE,
+// ---- inductive step: an arbitrary well-formed state, one operation, full observation of the resulting state ----
+// The harness describes the pre-state of both instances as recency lists (keys/sizes, most recent first) plus the order
+// in which the entries entered the hash map; the state is assembled directly (map nodes + prev/next/key links + head,
+// tail, total_size), not through the public API. After one public operation the complete representation is reported:
+// the list walked forwards from head and backwards from tail, each node checked to be the map's node for its key.
+struct SetAccess : public LRUSet<int> {
+  bool build(const uint8_t* keys, const uint8_t* sizes, const uint8_t* ins, size_t m) {
+    Item* node[4] = {nullptr, nullptr, nullptr, nullptr};
+    size_t total = 0;
+    for (size_t r = 0; r < m; r++) {
+      size_t j = ins[r];
+      auto res = this->items.emplace(std::piecewise_construct, std::forward_as_tuple(static_cast<int>(keys[j])),
+          std::forward_as_tuple(static_cast<size_t>(sizes[j])));
+      if (!res.second) {
+        return false;  // keys not distinct: the harness excludes this
+      }
+      node[j] = &res.first->second;
+      node[j]->key = &res.first->first;
+      total += sizes[j];
+    }
+    for (size_t j = 0; j < m; j++) {
+      node[j]->prev = (j > 0) ? node[j - 1] : nullptr;
+      node[j]->next = (j + 1 < m) ? node[j + 1] : nullptr;
+    }
+    this->head = m ? node[0] : nullptr;
+    this->tail = m ? node[m - 1] : nullptr;
+    this->total_size = total;
+    return true;
+  }
+  // out[0] = number of nodes reached from head via next (W_CAPACITY if more than max), out[1..] their (key,size);
+  // a node that is not the map's node for its key, or whose key pointer is not the map's key, is reported as -60
+  void walk(int64_t* out, size_t max, bool forward) {
+    Item* p = forward ? this->head : this->tail;
+    size_t n = 0;
+    for (; n <= max && p; n++) {
+      auto it = this->items.find(*p->key);
+      bool ok = (it != this->items.end()) && (&it->second == p) && (&it->first == p->key);
+      out[1 + n] = ok ? ENC_KS(*p->key, p->size) : -60;
+      p = forward ? p->next : p->prev;
+    }
+    out[0] = p ? W_CAPACITY : static_cast<int64_t>(n);
+  }
+};
+
+#define STEP_WALK 6 /* count + up to 5 entries */
+#define STEP_NOUT (OBS_PER_STEP + 4 * STEP_WALK)
+// st: per instance keys[4], sizes[4], ins[4]
+WEXPORT int64_t w_lruset_step(const uint8_t* st, size_t m0, size_t m1, uint8_t op, uint8_t key, uint8_t sz, int64_t* out) {
+  try {
+    SetAccess s0, s1;
+    if (!s0.build(st, st + 4, st + 8, m0) || !s1.build(st + 12, st + 16, st + 20, m1)) {
+      return -51;
+    }
+    out[0] = set_step(s0, s1, op, key, sz);
+    out[1] = static_cast<int64_t>(s0.size());
+    out[2] = static_cast<int64_t>(s0.count());
+    out[3] = static_cast<int64_t>(s1.size());
+    out[4] = static_cast<int64_t>(s1.count());
+    s0.walk(out + OBS_PER_STEP, 4, true);
+    s0.walk(out + OBS_PER_STEP + STEP_WALK, 4, false);
+    s1.walk(out + OBS_PER_STEP + 2 * STEP_WALK, 4, true);
+    s1.walk(out + OBS_PER_STEP + 3 * STEP_WALK, 4, false);
+    return 0;
+  }
+  W_CATCH_ALL
+}
+
+enum MapOp { M_INSERT = 0, M_EMPLACE, M_ERASE, M_AT, M_ITEM_SIZE, M_CHANGE_SIZE, M_CHANGE_SIZE_NOTOUCH, M_TOUCH, M_TOUCH_SIZE, M_TOUCH_NEG,
   M_EVICT, M_CLEAR, M_SWAP, M_EMPTY, M_NOPS };
 
 // LRUMap::insert(const KeyT&, const ValueT&, size_t) and LRUMap::at(const KeyT&) const are not instantiated: neither
-// compiles when instantiated (see NOTES.md).
+// compiles when instantiated (see NOTES.md). Every other member has exactly one call site per step.
 static int64_t map_step(LRUMap<int, int>& t, LRUMap<int, int>& o, uint8_t op, int k, int v, size_t sz) {
   switch (op) {
     case M_INSERT: return t.insert(std::move(k), std::move(v), sz);
@@ -123,10 +190,14 @@ static int64_t map_step(LRUMap<int, int>& t, LRUMap<int, int>& o, uint8_t op, in
       } catch (const std::out_of_range&) {
         return W_OUT_OF_RANGE;
       }
-    case M_CHANGE_SIZE: return t.change_size(k, sz);
-    case M_CHANGE_SIZE_NOTOUCH: return t.change_size(k, sz, false);
-    case M_TOUCH: return t.touch(k);
-    case M_TOUCH_SIZE: return t.touch(k, static_cast<ssize_t>(sz));
+    case M_CHANGE_SIZE:
+    case M_CHANGE_SIZE_NOTOUCH: return t.change_size(k, sz, op == M_CHANGE_SIZE);
+    case M_TOUCH:
+    case M_TOUCH_SIZE:
+    case M_TOUCH_NEG: {
+      ssize_t ns = (op == M_TOUCH_SIZE) ? static_cast<ssize_t>(sz) : (op == M_TOUCH) ? -1 : -2 - static_cast<ssize_t>(sz);
+      return t.touch(k, ns);
+    }
     case M_EVICT:
       try {
         auto e = t.evict_object();
@@ -141,23 +212,26 @@ static int64_t map_step(LRUMap<int, int>& t, LRUMap<int, int>& o, uint8_t op, in
   }
 }
 
+#define MAP_OBSERVE(i)                                         \
+  out[OBS_PER_STEP * (i) + 1] = static_cast<int64_t>(s0.size());  \
+  out[OBS_PER_STEP * (i) + 2] = static_cast<int64_t>(s0.count()); \
+  out[OBS_PER_STEP * (i) + 3] = static_cast<int64_t>(s1.size());  \
+  out[OBS_PER_STEP * (i) + 4] = static_cast<int64_t>(s1.count());
+
 WEXPORT int64_t w_lrumap_history(const uint8_t* op, const uint8_t* which, const uint8_t* key, const uint8_t* val, const uint8_t* sz,
     size_t n, int64_t* out, int64_t* drain, size_t drain_max) {
   try {
-    LRUMap<int, int> s[2];
+    LRUMap<int, int> s0, s1;
     for (size_t i = 0; i < n; i++) {
-      size_t w = which[i] & 1;
-      out[OBS_PER_STEP * i + 0] = map_step(s[w], s[1 - w], op[i], key[i], val[i], sz[i]);
-      out[OBS_PER_STEP * i + 1] = static_cast<int64_t>(s[0].size());
-      out[OBS_PER_STEP * i + 2] = static_cast<int64_t>(s[0].count());
-      out[OBS_PER_STEP * i + 3] = static_cast<int64_t>(s[1].size());
-      out[OBS_PER_STEP * i + 4] = static_cast<int64_t>(s[1].count());
+      out[OBS_PER_STEP * i + 0] = (which[i] & 1) ? map_step(s1, s0, op[i], key[i], val[i], sz[i]) : map_step(s0, s1, op[i], key[i], val[i], sz[i]);
+      MAP_OBSERVE(i)
     }
     for (size_t w = 0; w < 2; w++) {
+      LRUMap<int, int>& d = w ? s1 : s0;
       for (size_t j = 0; j <= drain_max; j++) {
         int64_t r;
         try {
-          auto e = s[w].evict_object();
+          auto e = d.evict_object();
           r = ENC_KVS(e.key, e.value, e.size);
         } catch (const std::out_of_range&) {
           r = W_OUT_OF_RANGE;
@@ -168,7 +242,7 @@ WEXPORT int64_t w_lrumap_history(const uint8_t* op, const uint8_t* which, const 
         }
       }
     }
-    return static_cast<int64_t>(s[0].size() + s[0].count() + s[1].size() + s[1].count());
+    return static_cast<int64_t>(s0.size() + s0.count() + s1.size() + s1.count());
   }
   W_CATCH_ALL
 }
@@ -176,15 +250,66 @@ WEXPORT int64_t w_lrumap_history(const uint8_t* op, const uint8_t* which, const 
 WEXPORT int64_t w_lrumap_history_nodrain(const uint8_t* op, const uint8_t* which, const uint8_t* key, const uint8_t* val,
     const uint8_t* sz, size_t n, int64_t* out) {
   try {
-    LRUMap<int, int> s[2];
+    LRUMap<int, int> s0, s1;
     for (size_t i = 0; i < n; i++) {
-      size_t w = which[i] & 1;
-      out[OBS_PER_STEP * i + 0] = map_step(s[w], s[1 - w], op[i], key[i], val[i], sz[i]);
-      out[OBS_PER_STEP * i + 1] = static_cast<int64_t>(s[0].size());
-      out[OBS_PER_STEP * i + 2] = static_cast<int64_t>(s[0].count());
-      out[OBS_PER_STEP * i + 3] = static_cast<int64_t>(s[1].size());
-      out[OBS_PER_STEP * i + 4] = static_cast<int64_t>(s[1].count());
+      out[OBS_PER_STEP * i + 0] = (which[i] & 1) ? map_step(s1, s0, op[i], key[i], val[i], sz[i]) : map_step(s0, s1, op[i], key[i], val[i], sz[i]);
+      MAP_OBSERVE(i)
     }
+    return 0;
+  }
+  W_CATCH_ALL
+}
+
+struct MapAccess : public LRUMap<int, int> {
+  bool build(const uint8_t* keys, const uint8_t* sizes, const uint8_t* ins, const uint8_t* vals, size_t m) {
+    Item* node[4] = {nullptr, nullptr, nullptr, nullptr};
+    size_t total = 0;
+    for (size_t r = 0; r < m; r++) {
+      size_t j = ins[r];
+      auto res = this->items.emplace(std::piecewise_construct, std::forward_as_tuple(static_cast<int>(keys[j])),
+          std::forward_as_tuple(static_cast<int>(vals[j]), static_cast<size_t>(sizes[j])));
+      if (!res.second) {
+        return false;  // keys not distinct: the harness excludes this
+      }
+      node[j] = &res.first->second;
+      node[j]->key = &res.first->first;
+      total += sizes[j];
+    }
+    for (size_t j = 0; j < m; j++) {
+      node[j]->prev = (j > 0) ? node[j - 1] : nullptr;
+      node[j]->next = (j + 1 < m) ? node[j + 1] : nullptr;
+    }
+    this->head = m ? node[0] : nullptr;
+    this->tail = m ? node[m - 1] : nullptr;
+    this->total_size = total;
+    return true;
+  }
+  void walk(int64_t* out, size_t max, bool forward) {
+    Item* p = forward ? this->head : this->tail;
+    size_t n = 0;
+    for (; n <= max && p; n++) {
+      auto it = this->items.find(*p->key);
+      bool ok = (it != this->items.end()) && (&it->second == p) && (&it->first == p->key);
+      out[1 + n] = ok ? ENC_KVS(*p->key, p->value, p->size) : -60;
+      p = forward ? p->next : p->prev;
+    }
+    out[0] = p ? W_CAPACITY : static_cast<int64_t>(n);
+  }
+};
+
+// st: per instance keys[4], sizes[4], ins[4], vals[4]
+WEXPORT int64_t w_lrumap_step(const uint8_t* st, size_t m0, size_t m1, uint8_t op, uint8_t key, uint8_t val, uint8_t sz, int64_t* out) {
+  try {
+    MapAccess s0, s1;
+    if (!s0.build(st, st + 4, st + 8, st + 12, m0) || !s1.build(st + 16, st + 20, st + 24, st + 28, m1)) {
+      return -51;
+    }
+    out[0] = map_step(s0, s1, op, key, val, sz);
+    MAP_OBSERVE(0)
+    s0.walk(out + OBS_PER_STEP, 4, true);
+    s0.walk(out + OBS_PER_STEP + STEP_WALK, 4, false);
+    s1.walk(out + OBS_PER_STEP + 2 * STEP_WALK, 4, true);
+    s1.walk(out + OBS_PER_STEP + 3 * STEP_WALK, 4, false);
     return 0;
   }
   W_CATCH_ALL
